@@ -1150,7 +1150,12 @@ impl World {
                         ctrls.push(extra_ctl(&r.marker));
                     }
                     if let Some(cookie) = &r.done_cookie {
-                        let pc = Ctl { oid: PAGED_OID.as_bytes().to_vec(), crit: None, val: Some(paging_value(0, cookie)) };
+                        let served_so_far = *self.server.pages_served.get(&r.marker).unwrap_or(&0);
+                        let pc = if plan.cookie == CookieStyle::WithEstimate {
+                            Ctl { oid: PAGED_OID.as_bytes().to_vec(), crit: Some(true), val: Some(paging_value(if served_so_far == 0 { 70000 } else { 128 }, cookie)) }
+                        } else {
+                            Ctl { oid: PAGED_OID.as_bytes().to_vec(), crit: None, val: Some(paging_value(0, cookie)) }
+                        };
                         if plan.extra_res_ctrl {
                             ctrls.insert(0, pc);
                         } else {
